@@ -41,17 +41,17 @@ var c14Reqs = []J{
 }
 
 type c14Row struct {
-	FW     int   `json:"fw"`
-	Strict bool  `json:"strict"`
-	Flag   bool  `json:"flag"`
-	N      int   `json:"n"`
-	Stop   int   `json:"stop"`
-	SN     int   `json:"sn"`
-	SStop  int   `json:"sstop"`
-	Op     int   `json:"op"`
-	Trace  []int `json:"trace"`
+	FW     int      `json:"fw"`
+	Strict bool     `json:"strict"`
+	Flag   bool     `json:"flag"`
+	N      int      `json:"n"`
+	Stop   int      `json:"stop"`
+	SN     int      `json:"sn"`
+	SStop  int      `json:"sstop"`
+	Op     int      `json:"op"`
+	Trace  []int    `json:"trace"`
 	Raw    []string `json:"raw"`
-	Status int   `json:"status"`
+	Status int      `json:"status"`
 }
 
 var c14FWs = []string{"chi", "gorilla", "stdhttp", "gin", "fiber", "iris", "echo"}
